@@ -827,7 +827,7 @@ def comments_by_index(doc: Doc, idxs):
     return [cs[i] for i in idxs if i < len(cs)]
 
 
-def mark_file_claim(doc: Doc, log):
+def mark_file_claim(doc: Doc, log, mode: int = 4):
     """k_mode 4 on the root File's own claim_interleaving_comments(), the last primitive of
     File.auto_claim_comments(): the hypothesis file_cover_b of C14_file_auto_claim_all_claimed / C14_idempotent_file
     (what the children left unclaimed lies in the File's range) is evaluated there"""
@@ -837,7 +837,7 @@ def mark_file_claim(doc: Doc, log):
     rep = getattr(getattr(doc.file, 'raw_directives_with_comments', None), 'repeated', None)
     if rec.get('op') == 'claimer' and rec.get('filter') is None and not rec.get('exc') and not rec.get('mode') \
             and rep is not None and rec.get('r') == doc.nid(rep):
-        rec['mode'] = 4
+        rec['mode'] = mode
 
 
 def apply_op(doc: Doc, op):
@@ -1200,8 +1200,13 @@ def run_document(ctx, prop: str, lines, crlf, final_nl, ops_seed, n_ops, witness
     with Tap(d_false):
         d_false.log = []
         d_false.file.auto_claim_comments()
-    mark_file_claim(d_false, d_false.log)
-    ctx.count('hyp_file_cover_steps', sum(1 for p in d_false.log if p.get('mode') == 4))
+    # k_mode 5: this history is the ONE File.auto_claim_comments() run on a freshly parsed store; besides file_cover_b
+    # the Coq side compares, for every block comment, the owner after the run with the declarative rule
+    # CommentsRule.attrib_spec evaluated on the parsed store (CommentsRun.attrib_hist)
+    mark_file_claim(d_false, d_false.log, mode=5)
+    if d_false.log and d_false.log[-1].get('mode') == 5:
+        ctx.count('hyp_file_cover_steps')
+        ctx.count('hyp_attrib_spec_checked', n_com)
     hists = {False: [d_false.log], True: []}
     metas = {False: [[['auto', 'F', None]]], True: []}
     if d_false.table() != d_true.table():
@@ -1570,6 +1575,10 @@ ASSUME = ['every hypothesis of the C14 theorems is evaluated on every trace (Com
           'auto_ok in repeated auto-claims, adjacent_comment / refs_ok_b before unclaim+claim, claimable_b (the un-claimed '
           'comments lie in the field\'s range) before the claim that follows unclaim_interleaving_comments, file_cover_b '
           '(what the children left unclaimed lies in the File\'s range) before the root File\'s own claim',
+          'the attribution rule over whole layouts: the call order is modelled by CommentsRule.emit (tied to the extracted '
+          'classes by C14_rule_generated_order; Repeated / wrapper order read off the source); that a comment is still '
+          'unclaimed and adjacent / in range when its call comes is validated per trace (attrib_spec on the parsed store '
+          'vs. the owner after File.auto_claim_comments(), counter hyp_attrib_spec_checked), not proved',
           'token texts are cut to 3 code points on the Coq side (the model reads emptiness and a comment\'s first character)',
           'the token store is the plain list of its tokens (C07); get_next/get_prev/iter/splice on it are list operations',
           'token ids are unique in a store (checked on every state by the correspondence)',
@@ -1580,7 +1589,17 @@ ASSUME = ['every hypothesis of the C14 theorems is evaluated on every trace (Com
 def run(ctx: common.Ctx):
     ctx.rule = RULE
     ctx.assumptions += ASSUME
-    ctx.require_coq(['properties/C14'], extra_targets=['CommentsRun'])
+    from translate import gen
+
+    def translate():
+        # inside the build lock: Generated.v (read by CommentsRuleGen.v: the generated claim order) is rewritten only if
+        # its content changed
+        ok, msg = gen.main(write=True)
+        if not ok:
+            ctx.fail('tie', 'translator', f'translate/gen.py cannot read models/generated: {msg}')
+        ctx.notes.append(f'translator: {msg}')
+
+    ctx.require_coq(['properties/C14'], extra_targets=['CommentsRun'], pre=translate)
     run_all(ctx, 'C14', 330, 1500)
     probe_appended_entry(ctx)
 
